@@ -72,7 +72,7 @@ STYLE = {
 def cli_variants(quick):
     """(fmt, loop, resum) settings of the program runs"""
     if quick:
-        return [(0, 2, 1), (1, 2, 1), (4, 2, 1)]
+        return [(0, 2, 1), (1, 2, 1), (4, 2, 1), (0, 2, 0), (4, 2, 0)]
     return [(f, l, r) for f in range(5) for (l, r) in ((2, 1), (2, 0), (1, 1), (0, 1))]
 
 
@@ -113,6 +113,11 @@ def build_cases(quick, skip_by_base):
                     cases.append(dict(com, entry="cpp", line="%s %d %s" % (cpp, force, args(p))))
                     if model == "THDM" or force == 0:        # the MSSM C interface cannot set force-output
                         cases.append(dict(com, entry="c", line="%s %d %s" % (cc, force, args(p))))
+                    if model == "MSSM":
+                        # the same through the functions without tan(beta) resummation
+                        cases.append(dict(com, entry="cpp-nonres", line="%s %d %s nonres=1" % (cpp, force, args(p))))
+                        if force == 0:
+                            cases.append(dict(com, entry="c-nonres", line="%s %d %s nonres=1" % (cc, force, args(p))))
                     if model == "THDM" and any(d.id.startswith("yukawa=") for d in dset):
                         # the same invalid integer stored directly in the basis struct (e.g. a zeroed C struct)
                         cases.append(dict(com, entry="cpp-rawenum", line="%s %d %s yukawa_cast=1" % (cpp, force, args(p))))
@@ -266,7 +271,19 @@ def judge(c, o):
             return [("computed-silently", None, "%s %s base %s, defects {%s}, force=%d, entry c: int_to_c_yukawa_type accepted the invalid "
                      "Yukawa type without an error message on stderr [%s]" % (model, c["style"], c["base"], ", ".join(ids), force, o.get("msg", "")))]
         dset = [d for d in dset if not d.id.startswith("yukawa=")]
+    # a defect counts where its spectrum is looked at: the resummed one always (setup), the one with
+    # tree-level Yukawas only when a function without tan(beta) resummation is evaluated
+    if c["entry"] == "cli":
+        nonres = c["fmt"] != 1 and c["resum"] == 0 and c["loop"] >= 1
+    else:
+        nonres = c["entry"].endswith("-nonres")
+    dset = [d for d in dset if "res" in d.paths or (nonres and "nonres" in d.paths)]
+    is_c = c["entry"] in ("c", "c-nonres", "c-rawenum")
     pred = T.predict(model, dset, force)
+    if (is_c and model == "MSSM" and pred["refused"] and not o.get("crash") and not o["refused"]
+            and o["result"] is not None and math.isnan(o["result"])):
+        # a double-returning C function has no error channel: NaN is its refusal (gm2_1loop.h / gm2_2loop.h)
+        o = dict(o, refused=True, result=None, code=None, nan_refusal=True)
     tag = "+".join(ids) or "valid"
     ent = c["entry"] + (":fmt%d" % c["fmt"] if c["entry"] == "cli" else "")
     desc = "%s %s base %s, defects {%s}, force=%d, entry %s%s" % (
@@ -311,7 +328,9 @@ def judge(c, o):
                 elif o["cls"] not in pred["classes"]:
                     fail("class", "throws %s, documented class %s" % (o["cls"], "/".join(sorted(pred["classes"]))))
             else:
-                if "*" in pred["ccodes"]:
+                if o.get("nan_refusal"):
+                    ok = True
+                elif "*" in pred["ccodes"]:
                     ok = o["code"] != 0
                 else:
                     ok = o["code"] in pred["ccodes"]
@@ -344,8 +363,8 @@ def judge(c, o):
         for d in dset:
             if d.sector is None or d.sector not in MONITORED:
                 continue
-            if c["entry"] == "c" and model == "MSSM" and o["refused"]:
-                continue        # the C interface reports only the error code when it refuses
+            if is_c and model == "MSSM" and o["refused"]:
+                continue        # the C interface reports only the error code / NaN when it refuses
             if o["refused"] and d.also and "tachyon" not in text:
                 continue        # refused as negative soft mass^2, the other documented rule
             if ("%s tachyon" % d.sector) not in text:
@@ -402,6 +421,18 @@ def run(ctx):
     ctx.note("realised_sectors_not_in_source", sorted(realised - MONITORED))
     if not MONITORED & realised:
         raise InfraError("no monitored sector name found in the sources (%r)" % sorted(MONITORED))
+    win = {}
+    for sty, pts in (("gm2", C.gm2_points()), ("slha", C.slha_points())):
+        for bname, base in pts:
+            for d in T.mssm_defects():
+                if d.paths != ("res", "nonres") and sty in d.styles:
+                    xt, xr, db = T.sbottom_window(T.apply(base, (d,), HELP))
+                    win["%s/%s/%s" % (sty, bname, d.id)] = [round(v, 3) for v in xt + xr + (db,)]
+                    ok = (xt[0] >= 1.2 and xr[1] <= 1 / 1.2) if d.paths == ("nonres",) else (xt[1] <= 1 / 1.2 and xr[0] >= 1.2)
+                    if not ok:
+                        raise InfraError("realisation %s on %s/%s has no safe margin: tree %r resummed %r Delta_b %.3f"
+                                         % (d.id, sty, bname, xt, xr, db))
+    ctx.note("sbottom_mixing_over_diagonal[tree_min,tree_max,res_min,res_max,Delta_b]", win)
     skip, notes = probe_cha0()
     ctx.note("cha0_lightest_chargino_mass_per_base", {k: repr(v) for k, v in notes.items()})
     for k in sorted(skip):
@@ -456,7 +487,8 @@ def run(ctx):
         "decision table written from README/gm2_error.hpp and the property statement; structural defects (undecidable basis, Yukawa type) accept any gm2calc::Error class",
         "MSSM C interface has no force-output switch: only force=0 is exercised there",
         "Higgs-sector tachyons (hh, Ah, Hpm) cannot be produced from the inputs and are not enumerated",
-        "tan(beta) = infinity is realised as 1e300 (the readers reject the token 'inf')"]
+        "tan(beta) = infinity is realised as 1e300 (the readers reject the token 'inf')",
+        "tachyons that exist in one spectrum only are realised in the sbottom sector (Delta_b ~ +5 / -0.56, margins asserted from arXiv:0901.2065 Eq.(31)); Delta_mu, Delta_tau are too small for a stau/smuon analogue with a safe margin"]
     return ctx.finish(
         "cases = {3 base points per style} x {no defect, each defect, each compatible pair} x force {0,1} x entry points "
         "{program x output variants, C++, C}; distinct = (model, style, entry, force, #defects, outcome class)",
